@@ -87,6 +87,9 @@ type NodeMachine struct {
 	Unauth map[string]bool
 	// Altered: stored copies (by pointer) of transactions a block carried with an altered body under the original id
 	Altered map[*pb.Transaction]bool
+	// walkFn, when set, performs the state walk of the current operation instead of State.Walk (the truncate op goes
+	// through the miner's real truncateForMiner, which walks and then truncates the ledger)
+	walkFn func(target []byte, prune bool) error
 	// CheckFresh: compare with a freshly replayed node after walks and at the end
 	Specs       map[string]TxSpec // every spec submitted through a "tx" op, by txid
 	LastOutcome string
@@ -813,7 +816,14 @@ func (nm *NodeMachine) Apply(op NOp) error {
 			nm.LastOutcome = "skipped"
 			return nil
 		}
-		if err := nm.walk(t, false); err != nil {
+		// the real Miner.truncateForMiner: Walk(target, false), then Ledger.Truncate(target) (the ledger model's own
+		// Truncate call below then finds the ledger already cut at the target)
+		nm.walkFn = func(id []byte, prune bool) error {
+			return n.Miner.VerifTruncateForMiner(n.Ctx, id)
+		}
+		err := nm.walk(t, false)
+		nm.walkFn = nil
+		if err != nil {
 			return err
 		}
 		if nm.LastOutcome == "failed" {
@@ -1165,7 +1175,12 @@ func (nm *NodeMachine) walk(target int, prune bool) error {
 	}
 	oldPool := nm.Pool
 	nm.LastUndo = len(undo)
-	err := n.State.Walk(m.Blocks[target].ID, prune)
+	var err error
+	if nm.walkFn != nil {
+		err = nm.walkFn(m.Blocks[target].ID, prune)
+	} else {
+		err = n.State.Walk(m.Blocks[target].ID, prune)
+	}
 	WaitAsync()
 	if (err == nil) != expectOK {
 		return fmt.Errorf("Walk(%s -> %s, prune=%v) returned %v; model expects success=%v (%s)", m.Blocks[nm.Ptr].Label, m.Blocks[target].Label, prune, err, expectOK, why)
